@@ -151,7 +151,8 @@ Proof. intro H. apply emit_ok in H. destruct H as (? & _ & ->). reflexivity. Qed
 Lemma efrag_breaks_all :
   (forall e, efrag e = true -> forall st st', compile_expr true e st = COk st' -> cbreaks st' = cbreaks st) /\
   (forall l, efrag_list l = true -> forall st st', compile_elist true l st = COk st' -> cbreaks st' = cbreaks st) /\
-  (forall p : eplist, True) /\ (forall o : oexpr, True).
+  (forall l, efrag_pairs l = true -> forall st st', compile_pairs true l st = COk st' -> cbreaks st' = cbreaks st) /\
+  (forall o, efrag_o o = true -> forall st st', compile_oexpr true o st = COk st' -> cbreaks st' = cbreaks st).
 Proof.
   apply expr_mutind; try (intros; exact I).
   - intros f HF st st' HC; simpl in HC. unfold emit_const in HC. apply emit_breaks in HC. exact HC.
@@ -159,7 +160,8 @@ Proof.
   - intros s HF st st' HC; simpl in HC. unfold emit_const in HC. apply emit_breaks in HC. exact HC.
   - intros n HF st st' HC; simpl in HC. unfold compile_var in HC. destruct (st_resolve n (csym st)); [|discriminate]. destruct (sscp s); apply emit_breaks in HC; exact HC.
   - intros l IHl HF st st' HC; simpl in HC. cbn [efrag] in HF. bind_inv HC. rewrite <- (IHl HF _ _ H). apply emit_breaks in HC. exact HC.
-  - intros kvs _ np HF. discriminate HF.
+  - intros kvs IHl np HF st st' HC; simpl in HC. cbn [efrag] in HF. apply andb_true_iff in HF. destruct HF as [_ HF].
+    bind_inv HC. rewrite <- (IHl HF _ _ H). apply emit_breaks in HC. exact HC.
   - intros op e IHe HF st st' HC; simpl in HC. assert (HF1 : efrag e = true) by (destruct op; simpl in HF; congruence).
     bind_inv HC. rewrite <- (IHe HF1 _ _ H). destruct op; try discriminate HC; apply emit_breaks in HC; exact HC.
   - intros op lt rt e1 IHe1 e2 IHe2 HF st st' HC; simpl in HC.
@@ -169,12 +171,23 @@ Proof.
   - intros e1 IHe1 e2 IHe2 HF st st' HC; simpl in HC.
     simpl in HF. apply andb_true_iff in HF. destruct HF as [HF1 HF2]. bind_inv HC. bind_inv H.
     rewrite <- (IHe1 HF1 _ _ H0), <- (IHe2 HF2 _ _ H). apply emit_breaks in HC. exact HC.
-  - intros l _ a _ b _ HF. discriminate HF.
+  - intros l IHl a IHa b IHb HF st st' HC. cbn [efrag] in HF.
+    apply andb_true_iff in HF. destruct HF as [HF HF3]. apply andb_true_iff in HF. destruct HF as [HF1 HF2].
+    cbn [compile_expr] in HC.
+    apply bind_ok in HC; destruct HC as (c3 & HC3 & HC). apply bind_ok in HC3; destruct HC3 as (c2 & HC2 & HCb).
+    apply bind_ok in HC2; destruct HC2 as (c1 & HCl & HCa).
+    apply emit_breaks in HC. rewrite HC, (IHb HF3 _ _ HCb), (IHa HF2 _ _ HCa). apply (IHl HF1 _ _ HCl).
   - intros e IHe HF st st' HC; simpl in HC. apply (IHe HF _ _ HC).
   - intros w HF. discriminate HF.
   - intros _ st st' HC. simpl in HC. inversion HC; reflexivity.
   - intros e IHe t IHt HF st st' HC. cbn [efrag_list] in HF. apply andb_true_iff in HF. destruct HF as [HF1 HF2].
     simpl in HC. bind_inv HC. rewrite <- (IHe HF1 _ _ H). apply (IHt HF2 _ _ HC).
+  - intros _ st st' HC. simpl in HC. inversion HC; reflexivity.
+  - intros k e IHe t IHt HF st st' HC. cbn [efrag_pairs] in HF. apply andb_true_iff in HF. destruct HF as [HF1 HF2].
+    cbn [compile_pairs] in HC. bind_inv HC. bind_inv H. unfold emit_const in H0. apply emit_breaks in H0. cbn [cbreaks] in H0.
+    rewrite (IHt HF2 _ _ HC), (IHe HF1 _ _ H). exact H0.
+  - intros _ st st' HC. cbn [compile_oexpr] in HC. apply emit_breaks in HC. exact HC.
+  - intros e IHe HF st st' HC. cbn [efrag_o] in HF. cbn [compile_oexpr] in HC. apply (IHe HF _ _ HC).
 Qed.
 
 Lemma efrag_breaks : forall e, efrag e = true -> forall st st', compile_expr true e st = COk st' -> cbreaks st' = cbreaks st.
@@ -475,6 +488,44 @@ Proof.
     apply lopk_setvar. intro HS. apply (HLB n y ER HS).
   - intros nc gc k Hnc HG. eapply runs_app; [apply (R nc gc k); [rewrite <- E2'; exact Hnc|exact HG]|].
     cbn [runs]. rewrite sop_ok_setvar; [reflexivity| |exact HRng]. intro HS. apply (HG n y ER HS).
+Qed.
+
+(* l[i] = e: the value, the container, the index, OpSetIndex (pops three) *)
+Lemma sop_ok_setindex nc gc k : sop_ok nc gc (SetIndex, 0) (k + 3) = Some k.
+Proof.
+  unfold sop_ok. cbn [is_sl negb has_operand andb simple_effect].
+  change (0 <? 65536) with true. change (0 =? 0) with true. cbn [negb andb].
+  destruct (k + 3 <? 3) eqn:E0; [apply N.ltb_lt in E0; lia|]. f_equal. lia.
+Qed.
+
+Lemma ctl_store l i e st st' : efrag l = true -> efrag i = true -> efrag e = true ->
+  compile_stmt true (SAssign (EIndex l i) e) st = COk st' -> Inv (csym st) -> has_gbw (csym st) -> CTL st st'.
+Proof.
+  intros HFl HFi HFe HC HI HGB. cbn [compile_stmt] in HC.
+  destruct (compile_expr true e st) as [st1|] eqn:E1; [|discriminate]. cbn [bind] in HC.
+  apply bind_ok in HC. destruct HC as (st3 & HC3 & HC). apply bind_ok in HC3. destruct HC3 as (st2 & E2 & E3).
+  destruct (expr_piece e st st1 HFe E1 HGB) as (S1 & B1 & ops1 & newc1 & NE1 & A1 & C1 & K1 & R1 & L1).
+  assert (HGB1 : has_gbw (csym st1)) by (rewrite S1; exact HGB).
+  destruct (expr_piece l st1 st2 HFl E2 HGB1) as (S2 & B2 & ops2 & newc2 & NE2 & A2 & C2 & K2 & R2 & L2).
+  assert (HGB2 : has_gbw (csym st2)) by (rewrite S2; exact HGB1).
+  destruct (expr_piece i st2 st3 HFi E3 HGB2) as (S3 & B3 & ops3 & newc3 & NE3 & A3 & C3 & K3 & R3 & L3).
+  pose proof (emit_enc0 SetIndex _ _ eq_refl HC) as ->. cbn [csym ccode cconsts cbreaks].
+  apply (CTL_straight st _ (ops1 ++ ops2 ++ ops3 ++ [(SetIndex, 0)]) (newc1 ++ newc2 ++ newc3)); cbn [csym ccode cconsts cbreaks].
+  - apply SX_eq. congruence.
+  - congruence.
+  - unfold solid. rewrite !map_app. apply aok_app; [exact A1|]. apply aok_app; [exact A2|]. apply aok_app; [exact A3|].
+    constructor; [cbn; lia|constructor].
+  - rewrite !encode_app, encode_one, C3, C2, C1, <- !app_assoc. reflexivity.
+  - rewrite K3, K2, K1, <- !app_assoc. reflexivity.
+  - intros lc HLc. rewrite S3, S2, S1 in HLc. pose proof (inv_lbw _ _ HI HLc) as HLB.
+    apply Forall_app. split; [apply L1; exact HLB|]. apply Forall_app. split; [apply L2; rewrite S1; exact HLB|].
+    apply Forall_app. split; [apply L3; rewrite S2, S1; exact HLB|].
+    constructor; [apply lopk_nonlocal; reflexivity|constructor].
+  - intros nc gc k Hnc HG. rewrite K3, K2, !app_length in Hnc.
+    eapply runs_app; [apply (R1 nc gc k); [lia|exact HG]|].
+    eapply runs_app; [apply (R2 nc gc (k + 1)); [rewrite K2, app_length; lia|rewrite S1; exact HG]|].
+    eapply runs_app; [apply (R3 nc gc (k + 1 + 1)); [rewrite K3, K2, !app_length; lia|rewrite S2, S1; exact HG]|].
+    cbn [runs]. replace (k + 1 + 1 + 1) with (k + 3) by lia. rewrite sop_ok_setindex. reflexivity.
 Qed.
 
 (* x := e inside a block: x becomes a local of the block's scope *)
@@ -1336,6 +1387,7 @@ Fixpoint cfrag_stmt (s : stmt) : bool :=
   match s with
   | SDecl _ e => efrag e
   | SAssign (EVar _) e => efrag e
+  | SAssign (EIndex l i) e => efrag l && efrag i && efrag e     (* element stores: a[i] = e, m[k] = e *)
   | SEmpty | SBreak => true
   | SIf c b elifs els =>
       efrag c && cfrag_slist b && cfrag_clist elifs &&
@@ -1497,7 +1549,9 @@ Proof.
   apply stmt_mutind.
   - (* SDecl *) intros n e HF st st' HC HO HG HGB. apply (ctl_decl n e st st' HF HC (HO eq_refl) HG HGB).
   - (* SAssign *) intros target e HF st st' HC _ HG HGB. destruct target; try discriminate HF.
-    apply (ctl_assign n e st st' HF HC HG HGB).
+    + apply (ctl_assign n e st st' HF HC HG HGB).
+    + cbn [cfrag_stmt] in HF. apply andb_true_iff in HF. destruct HF as [HF F3]. apply andb_true_iff in HF. destruct HF as [F1 F2].
+      apply (ctl_store target1 target2 e st st' F1 F2 F3 HC HG HGB).
   - (* SIf *) intros c b Hb elifs He els Ho HF st st' HC _ HG HGB. cbn [cfrag_stmt] in HF.
     apply andb_true_iff in HF. destruct HF as [HF F4]. apply andb_true_iff in HF. destruct HF as [HF F3].
     apply andb_true_iff in HF. destruct HF as [F1 F2].
